@@ -703,7 +703,13 @@ func (fr *Frame) unop(i *ssa.UnOp) {
 		loc := fr.ptrLoc(v, true)
 		fr.vals[i] = fr.readLoc(loc)
 		fr.vals[i].T = i.Type()
-		if _, isG := i.X.(*ssa.Global); isG && kindOf(i.Type()) == KPtr {
+		if g, isG := i.X.(*ssa.Global); isG && kindOf(i.Type()) == KPtr {
+			// exported pointer variables of library packages (base64.StdEncoding, ...) are
+			// initialised at package init and never nil (A-STDLIB-GLOBALS)
+			if g.Pkg != nil && !strings.HasPrefix(g.Pkg.Pkg.Path(), repoMod) {
+				x.em.Assert(sLt("0", fr.vals[i].Term))
+				x.trust("A-STDLIB-GLOBALS: library package variable " + g.Pkg.Pkg.Path() + "." + g.Name() + " is non-nil")
+			}
 			// package-level loggers are initialised at package init and never nil (A-LOG)
 			if pt, ok := i.Type().Underlying().(*types.Pointer); ok {
 				if n, ok := pt.Elem().(*types.Named); ok && n.Obj().Pkg() != nil && strings.HasSuffix(n.Obj().Pkg().Path(), "/util/logging") {
